@@ -17,6 +17,8 @@ import (
 	"go/scanner"
 	"go/token"
 	"os"
+	"runtime"
+	"runtime/debug"
 	"sort"
 	"strconv"
 	"strings"
@@ -99,9 +101,10 @@ func actionFor(frags []int, route int, imports []string) pipe.Action {
 }
 
 type Case struct {
-	Mod  int    `json:"module"`
-	Item Item   `json:"case"`
-	Name string `json:"-"`
+	AfterFailure int    `json:"after_a_failed_execute_of_kind,omitempty"` // 1 + index into failureKinds
+	Mod          int    `json:"module"`
+	Item         Item   `json:"case"`
+	Name         string `json:"-"`
 }
 
 func fragText(idx []int) string {
@@ -161,6 +164,80 @@ func ownDeclsOnly(decls []string) bool {
 		}
 	}
 	return true
+}
+
+var failureKinds = []string{"a generator returns an error after rendering", "a Defer callback returns an error after rendering", "an earlier generator rendered unparseable text, so later bodies are never written"}
+
+// failedRunBefore runs an Execute that fails part-way, in this process.
+func failedRunBefore(c *core.Ctx, kind int) {
+	dir := pipe.TempDir("c01f")
+	defer os.RemoveAll(dir)
+	_ = pipe.WriteTree(dir, pipe.Tree{
+		"go.mod":   pipe.GoMod("x.io/failing", "1.24"),
+		"p1/p1.go": "package p1\n\ntype A struct{}\n\ntype B struct{}\n",
+		"p2/p2.go": "package p2\n\ntype C struct{}\n",
+	})
+	g1 := pipe.GenScript{Name: "g1", Default: pipe.Action{Render: "var StaleFromFailedRun_$T_$G = 1\n"}}
+	g2 := pipe.GenScript{Name: "g2", Default: pipe.Action{Render: "var StaleOther_$T_$G = 1\n"}}
+	switch kind {
+	case 0:
+		g1.ByType = map[string]pipe.Action{"x.io/failing/p1.B": {Render: "var StaleFromFailedRun_$T_$G = 2\n", Ret: "error"}}
+	case 1:
+		g1.Default.Defers = []pipe.Action{{Render: "var StaleDeferred_$T_$G = 1\n", Ret: "error"}}
+	default:
+		g1.ByType = map[string]pipe.Action{"x.io/failing/p1.A": {Render: "func {\n"}}
+	}
+	o := pipe.Exec(pipe.Spec{Dir: dir, Entrypoints: []string{"./p1", "./p2"}, Globals: map[string][]string{"gengo:g1": {"true"}, "gengo:g2": {"true"}},
+		Gens: []pipe.GenScript{g1, g2}})
+	c.Trans(1)
+	if o.Err == "" {
+		c.Internal("the run of failure kind %d was meant to fail", kind)
+	}
+}
+
+// checkAfterFailure: [an Execute that fails part-way, a good Execute] in one process, with one P and the
+// garbage collector held back in between - so that whatever the failed run left in recycled buffers
+// (sync.Pool) is still there when the good run asks for one. The good run's files are judged like all others.
+func checkAfterFailure(c *core.Ctx, kind int) {
+	defer runtime.GOMAXPROCS(runtime.GOMAXPROCS(1))
+	defer debug.SetGCPercent(debug.SetGCPercent(-1))
+	c.Eval(1)
+	failedRunBefore(c, kind)
+	dir := pipe.TempDir("c01g")
+	defer os.RemoveAll(dir)
+	m := modules[0]
+	_ = pipe.WriteTree(dir, pipe.Tree{
+		"go.mod":   pipe.GoMod(m.path, m.goVersion),
+		"q1/q1.go": "package q1\n\ntype T struct{}\n",
+		"q2/q2.go": "package q2\n\ntype T struct{}\n",
+	})
+	frags := []int{0, 6}
+	o := pipe.Exec(pipe.Spec{Dir: dir, Entrypoints: []string{"./q1", "./q2"}, Globals: map[string][]string{"gengo:g1": {"true"}, "gengo:g2": {"true"}},
+		Gens: []pipe.GenScript{
+			{Name: "g2", Default: pipe.Action{Render: "var Other_$T_$G = 1\n", Defers: []pipe.Action{{Render: "func deferredHelper_$T_$G() {}\n"}}}},
+			{Name: "g1", Default: pipe.Action{Render: fragText(frags)}},
+		}})
+	c.Trans(1)
+	cs := Case{Mod: 0, Item: Item{Frags: frags}, AfterFailure: kind + 1}
+	if !o.OK() {
+		c.Fail("", cs, "the good run after a failed one (%s) failed: err=%q panic=%q", failureKinds[kind], o.Err, o.Panic)
+		return
+	}
+	for _, q := range []string{"q1", "q2"} {
+		what := "a good run right after an Execute in which " + failureKinds[kind]
+		src, err := os.ReadFile(dir + "/" + q + "/zz_generated.g1.go")
+		if err != nil {
+			c.Fail("", cs, "%s: %v", what, err)
+			continue
+		}
+		judgeFile(c, cs, m, "g1", q, src, frags, nil, what)
+		if src2, err := os.ReadFile(dir + "/" + q + "/zz_generated.g2.go"); err != nil {
+			c.Fail("", cs, "%s: %v", what, err)
+		} else if d, _, err := flatten(stripHeader(src2)); err != nil || !ownDeclsOnly(d) {
+			c.Fail("", cs, "%s: the file of the second generator holds %v (err=%v)", what, d, err)
+		}
+	}
+	c.Nontrivial(fmt.Sprint("after-failure ", kind))
 }
 
 func stripHeader(src []byte) []byte {
@@ -328,6 +405,10 @@ func checkBatch(c *core.Ctx, mi int, items []Item) {
 		c.Internal("%v", err)
 		return
 	}
+	// history: an Execute that FAILS part-way (a generator renders something and then returns an error, a
+	// Defer callback fails after rendering) ran in this process just before; nothing it rendered may
+	// reach the files of the runs judged below
+	failedRunBefore(c, 0)
 	runs := []map[string]pipe.Action{byType}
 	if second {
 		runs = append(runs, byType2)
@@ -411,6 +492,12 @@ func run(c *core.Ctx) {
 	c.Bound("fragment_menu", fn)
 	c.Bound("import_sets", importSets)
 	c.Bound("routes_to_the_writer", routes)
+	c.Bound("good_run_after_a_failed_execute_in_the_same_process", failureKinds)
+	for k := range failureKinds {
+		if c.Next() {
+			checkAfterFailure(c, k)
+		}
+	}
 	c.Bound("modules", modules2())
 	maxSeq := c.Pick(2, 3)
 	c.Bound("max_fragments_per_file", maxSeq)
@@ -530,13 +617,17 @@ func replay(c *core.Ctx, raw json.RawMessage) {
 		c.Internal("bad case: %v", err)
 		return
 	}
+	if cs.AfterFailure > 0 {
+		checkAfterFailure(c, cs.AfterFailure-1)
+		return
+	}
 	checkBatch(c, cs.Mod, []Item{cs.Item})
 }
 
 func init() {
 	core.Register(&core.Prop{
 		ID: "C01", Level: "model_checking", Run: run, Replay: replay,
-		Rule: "every sequence of <=2 (thorough <=3) fragments from a 27-item menu (plus runs f f f g, f f f f) (declarations of every kind, doc/block/free comments, directives, octal literal, raw strings, odd line breaks, blank lines, CRLF, missing trailing newline) x import-reference sets (std, third-party, module-local, clashing last segments, unsafe) on the first module, shorter sequences on 6 more (module path, go directive) combinations, package name != directory name; every written file is read back: parses, opens with a comment naming the generator, package clause, gofmt fixed point, gofumpt fixed point (module language version), and normalise(file) == normalise(reference assembly built by the harness). Histories: every ordered pair of fragments as (long file, then short) and (short, then long) regeneration over the existing file. Non-trivial = >=2 fragments or imports; states = distinct (module, length, import set, run kind)",
+		Rule: "every sequence of <=2 (thorough <=3) fragments from a 27-item menu (plus runs f f f g, f f f f) (declarations of every kind, doc/block/free comments, directives, octal literal, raw strings, odd line breaks, blank lines, CRLF, missing trailing newline) x import-reference sets (std, third-party, module-local, clashing last segments, unsafe) on the first module, shorter sequences on 6 more (module path, go directive) combinations, package name != directory name; every written file is read back: parses, opens with a comment naming the generator, package clause, gofmt fixed point, gofumpt fixed point (module language version), and normalise(file) == normalise(reference assembly built by the harness). Histories: every ordered pair of fragments as (long file, then short) and (short, then long) regeneration over the existing file; a good run right after an Execute that failed part-way in one of 3 ways (same process, one P, collector held back, so that recycled buffers survive). Non-trivial = >=2 fragments or imports; states = distinct (module, length, import set, run kind)",
 		Assumptions: []string{
 			"cases on which Execute returns an error (fragments that do not concatenate to parseable Go) are outside the property and skipped (counted)",
 			"normalisation = strip header + gofumpt to a fixed point: formatting may change tokens (0755 -> 0o755, //foo -> // foo, ungrouping), so token equality would be a false alarm",
